@@ -86,7 +86,7 @@ theorem mux_demux_roundtrip_lib (cfg : SrcCfg) (m : Mux) (hc : CfgOK m.cfg) (hp 
   have hasc := run_asc ops hops m
   have hlines : ps.map (·.lines) = (run m ops).2.2.map (·.lines) := by
     rw [← hcont, List.map_map]; rfl
-  have hS : Sep (ps.map (·.lines)) := by
+  have hS : Sep cfg (ps.map (·.lines)) := by
     rw [hlines]
     cases hss : (run m ops).2.2 with
     | nil => trivial
@@ -153,13 +153,14 @@ theorem empty_first_frame_pts :
 
 /-- OPEN (not proved): the round trip for frames that also carry lines with an undefined line
 number (`line` 0, accepted for Teletext only) anywhere but at the start of a frame: frame boundaries
-by the first (defined) line against the last defined line of the frame before; at most 63 lines per
-frame.  `mux_demux_roundtrip_lib` is the case without such lines (there 39 lines is the maximum).
+by the first (defined) line against the last defined line of the frame before; at most `frameCap cfg`
+lines per frame (64 = all of `dx->sliced[64]` with fix dvb-demux-full-frame in /repo, 63 before it: finding
+C07-full-frame).  `mux_demux_roundtrip_lib` is the case without such lines (there 39 lines is the maximum).
 Needs the field parity the multiplexer writes for an undefined line (`lofpOf`: from the last line
 number) to be related to `line_address`'s `last_field`, which `EnParse` does not record. -/
 def mux_demux_roundtrip_undef_full : Prop :=
   ∀ (cfg : SrcCfg) (m : Mux), CfgOK m.cfg → m.cfg.pid = 0 → ∀ (ops : List Op), (∀ op ∈ ops, Op.OK op) →
-    (∀ s ∈ (run m ops).2.2, 1 ≤ s.lines.length ∧ s.lines.length ≤ 63 ∧ firstLine s.lines ≠ 0) →
+    (∀ s ∈ (run m ops).2.2, 1 ≤ s.lines.length ∧ s.lines.length ≤ Zvbi.Demux.frameCap cfg ∧ firstLine s.lines ≠ 0) →
     (∀ i, i + 1 < (run m ops).2.2.length →
       firstLine ((run m ops).2.2.getD (i + 1) ⟨0, 0, []⟩).lines
         ≤ (((run m ops).2.2.getD i ⟨0, 0, []⟩).lines.filter (·.line ≠ 0)).foldl (fun _ l => l.line) 0) →
